@@ -16,14 +16,14 @@ RELEVANT = {
 }
 
 ARGS = {
-    ("C05", "quick"): ["-modes", "typeseq,bfs,random", "-typeseq-len", "5", "-bfs-depth", "3", "-bfs-budget", "1500", "-random", "150"],
-    ("C05", "thorough"): ["-modes", "typeseq,bfs,random", "-typeseq-len", "5", "-bfs-depth", "4", "-bfs-budget", "40000", "-random", "2000", "-random-len", "60"],
-    ("C06", "quick"): ["-modes", "bfs,random", "-bfs-depth", "4", "-bfs-budget", "3500", "-random", "500", "-random-len", "60"],
-    ("C06", "thorough"): ["-modes", "bfs,random", "-bfs-depth", "5", "-bfs-budget", "60000", "-random", "5000", "-random-len", "60"],
-    ("C07", "quick"): ["-modes", "policy,random", "-policy-len", "3", "-random", "300", "-overwrite-race-ms", "2500"],
-    ("C07", "thorough"): ["-modes", "policy,bfs,random", "-policy-len", "4", "-bfs-depth", "4", "-bfs-budget", "20000", "-random", "3000", "-random-len", "60", "-overwrite-race-ms", "20000"],
-    ("C20", "quick"): ["-modes", "bfs,random", "-bfs-reopen", "-bfs-depth", "3", "-bfs-budget", "2500", "-random", "300"],
-    ("C20", "thorough"): ["-modes", "bfs,random", "-bfs-reopen", "-bfs-depth", "4", "-bfs-budget", "40000", "-random", "3000", "-random-len", "60"],
+    ("C05", "quick"): ["-modes", "typeseq,bfs,random,rebind,policy", "-policy-len", "2", "-typeseq-len", "5", "-bfs-depth", "3", "-bfs-budget", "1500", "-random", "150"],
+    ("C05", "thorough"): ["-modes", "typeseq,bfs,random,rebind,policy", "-policy-len", "3", "-typeseq-len", "5", "-bfs-depth", "4", "-bfs-budget", "40000", "-random", "2000", "-random-len", "60"],
+    ("C06", "quick"): ["-modes", "bfs,random,rebind", "-bfs-depth", "4", "-bfs-budget", "3500", "-random", "500", "-random-len", "60"],
+    ("C06", "thorough"): ["-modes", "bfs,random,rebind", "-bfs-depth", "5", "-bfs-budget", "60000", "-random", "5000", "-random-len", "60"],
+    ("C07", "quick"): ["-modes", "policy,random,rebind", "-policy-len", "3", "-random", "300", "-overwrite-race-ms", "2500"],
+    ("C07", "thorough"): ["-modes", "policy,bfs,random,rebind", "-policy-len", "4", "-bfs-depth", "4", "-bfs-budget", "20000", "-random", "3000", "-random-len", "60", "-overwrite-race-ms", "20000"],
+    ("C20", "quick"): ["-modes", "rebind,bfs,random", "-bfs-reopen", "-bfs-small", "-bfs-depth", "3", "-bfs-budget", "3500", "-random", "300"],
+    ("C20", "thorough"): ["-modes", "rebind,bfs,random", "-bfs-reopen", "-bfs-small", "-bfs-depth", "4", "-bfs-budget", "40000", "-random", "3000", "-random-len", "60"],
     ("C02", "quick"): ["-modes", "random", "-random", "400"],
     ("C02", "thorough"): ["-modes", "random", "-random", "4000", "-random-len", "60"],
 }
